@@ -117,9 +117,7 @@ func ReencodeRepeatedCreatedHeight(tx []byte, createdHeight uint64) []byte {
 func (n *Network) CertificateResultsTx(nd *Node, chainId, nestedHeight, rootHeight uint64, proposer int, signers []int, results *lib.CertificateResult, createdHeight uint64) []byte {
 	nd.enter()
 	vs, err := nd.C.FSM.LoadCommittee(chainId, rootHeight)
-	if err != nil {
-		panic(err)
-	}
+	realCode("LoadCommittee of the nested chain", err)
 	pk := n.signerKey(proposer)
 	qc := &lib.QuorumCertificate{
 		Header:  &lib.View{Height: nestedHeight, RootHeight: rootHeight, NetworkId: NetworkId, ChainId: chainId},
